@@ -14,7 +14,10 @@
 #[path = "../../common/mod.rs"]
 mod common;
 mod exact;
+#[macro_use]
+mod iterprobe;
 use common::*;
+use rlib_show::{Show, ShowSettings};
 use rlib_geometry::{
     circle::{Circle, PointPosition},
     line::Line,
@@ -227,6 +230,62 @@ fn same_points(a: &[Point], b: &[Point]) -> bool {
     a.len() == b.len() && a.iter().zip(b).all(|(p, q)| p.x.to_bits() == q.x.to_bits() && p.y.to_bits() == q.y.to_bits())
 }
 
+type ClIter = <CircleLineIntersection as IntoIterator>::IntoIter;
+type CcIter = <CircleIntersection as IntoIterator>::IntoIter;
+
+/// the result enum rebuilt from its destructured payload (public variant constructors: re-use of returned values)
+fn rebuild_cl(pts: &[Point]) -> CircleLineIntersection {
+    match pts.len() {
+        0 => CircleLineIntersection::None,
+        1 => CircleLineIntersection::Touch(pts[0]),
+        _ => CircleLineIntersection::Intersect(pts[0], pts[1]),
+    }
+}
+
+fn rebuild_cc(kind: &str, pts: &[Point]) -> CircleIntersection {
+    match (kind, pts.len()) {
+        ("Same", _) => CircleIntersection::Same,
+        ("TouchInside", 1) => CircleIntersection::TouchInside(pts[0]),
+        ("TouchOutside", 1) => CircleIntersection::TouchOutside(pts[0]),
+        ("Intersect", 2) => CircleIntersection::Intersect(pts[0], pts[1]),
+        _ => CircleIntersection::None,
+    }
+}
+
+fn same_line(a: &Line, b: &Line) -> bool {
+    a.a.to_bits() == b.a.to_bits() && a.b.to_bits() == b.b.to_bits() && a.c.to_bits() == b.c.to_bits()
+}
+
+fn same_circle(a: &Circle, b: &Circle) -> bool {
+    a.c.x.to_bits() == b.c.x.to_bits() && a.c.y.to_bits() == b.c.y.to_bits() && a.r.to_bits() == b.r.to_bits()
+}
+
+/// Clone / clone_from (into a fresh and into a used destination) / Copy of a Line and a Circle: bit-identical copies
+fn copies_ok(c: &Circle, l: &Line) -> bool {
+    let c1 = c.clone();
+    let mut c2 = Circle::default();
+    c2.clone_from(c);
+    let mut c3 = Circle::new(Point::new(5.0, -6.0), 7.0);
+    c3.clone_from(c);
+    let c4 = *c;
+    let l1 = l.clone();
+    let mut l2 = Line::default();
+    l2.clone_from(l);
+    let mut l3 = Line::new(3.0, 4.0, 5.0);
+    l3.clone_from(l);
+    let l4 = *l;
+    let dc = Circle::default();
+    let dl = Line::default();
+    let zero = 0f64.to_bits();
+    let defaults = [dc.c.x, dc.c.y, dc.r, dl.a, dl.b, dl.c].iter().all(|v| v.to_bits() == zero);
+    defaults && [c1, c2, c3, c4].iter().all(|x| same_circle(x, c)) && [l1, l2, l3, l4].iter().all(|x| same_line(x, l))
+}
+
+/// a derived `Debug` rendering names the type / variant and shows every number (as `{:?}` of the f64)
+fn debug_shows(rendered: &str, name: &str, nums: &[f64]) -> bool {
+    rendered.starts_with(name) && nums.iter().all(|v| rendered.contains(&format!("{:?}", v)))
+}
+
 /// `ok`, or `off` followed by the offending result's coordinates (bit patterns) so that a replay file shows them
 fn ok_off_pts(b: bool, pts: &[Point]) -> String {
     if b {
@@ -275,7 +334,28 @@ fn run_inner(t: &[&str]) -> Option<(String, String)> {
             };
             // the way points are *reported*: `into_iter()` must yield the same points, same count, same order
             let it: Vec<Point> = intersect_cl(&c, &l).into_iter().collect();
-            let iter_tag = if same_points(&pts, &it) { "" } else { " iter-mismatch" };
+            let mut iter_tag = if same_points(&pts, &it) { String::new() } else { " iter-mismatch".to_string() };
+            if iter_tag.is_empty() && mode == "P" {
+                // every other entry point of the iterator (reverse, len, size_hint, count, last, nth, ... in every
+                // consumption state), on the enum rebuilt from the returned points
+                let caps = caps!(ClIter);
+                if let Some(what) = iterprobe::battery(&|| rebuild_cl(&pts).into_iter(), &caps, &pts) {
+                    iter_tag = format!(" iter-mismatch:{}", what);
+                }
+            }
+            // copies of the inputs (Clone::clone, clone_from into fresh / used destinations, Copy) give the same answer
+            if iter_tag.is_empty() {
+                let (c2, mut l2) = (c.clone(), Line::new(1.0, 2.0, 3.0));
+                l2.clone_from(&l);
+                let again: Vec<Point> = match intersect_cl(&c2, &l2) {
+                    CircleLineIntersection::None => vec![],
+                    CircleLineIntersection::Touch(p) => vec![p],
+                    CircleLineIntersection::Intersect(p, q) => vec![p, q],
+                };
+                if !copies_ok(&c, &l) || !same_points(&pts, &again) {
+                    iter_tag = " clone-mismatch".to_string();
+                }
+            }
             let raw = show_pts(kind, &pts);
             match mode {
                 "K" => {
@@ -308,7 +388,31 @@ fn run_inner(t: &[&str]) -> Option<(String, String)> {
                 CircleIntersection::Intersect(p, q) => ("Intersect", vec![p, q]),
             };
             let it: Vec<Point> = res.into_iter().collect();
-            let iter_tag = if same_points(&pts, &it) { "" } else { " iter-mismatch" };
+            let mut iter_tag = if same_points(&pts, &it) { String::new() } else { " iter-mismatch".to_string() };
+            if iter_tag.is_empty() && mode == "P" {
+                let caps = caps!(CcIter);
+                // the enum itself (Copy), its Clone::clone, and the enum rebuilt from the returned points
+                #[allow(clippy::clone_on_copy)]
+                let cloned = res.clone();
+                let what = iterprobe::battery(&|| res.into_iter(), &caps, &pts)
+                    .or_else(|| iterprobe::battery(&|| cloned.clone().into_iter(), &caps, &pts).map(|w| format!("clone:{}", w)))
+                    .or_else(|| iterprobe::battery(&|| rebuild_cc(kind, &pts).into_iter(), &caps, &pts).map(|w| format!("rebuilt:{}", w)));
+                if let Some(what) = what {
+                    iter_tag = format!(" iter-mismatch:{}", what);
+                }
+                let nums: Vec<f64> = pts.iter().flat_map(|p| [p.x, p.y]).collect();
+                if iter_tag.is_empty() && !(debug_shows(&format!("{:?}", res), kind, &nums) && debug_shows(&format!("{:?}", ca), "Circle", &[v[0], v[1], v[2]])) {
+                    iter_tag = " debug-mismatch".to_string();
+                }
+            }
+            if iter_tag.is_empty() {
+                let (a2, mut b2) = (ca.clone(), Circle::new(Point::new(1.0, 2.0), 3.0));
+                b2.clone_from(&cb);
+                let again: Vec<Point> = intersect_cc(&a2, &b2).into_iter().collect();
+                if !copies_ok(&ca, &Line::default()) || !copies_ok(&cb, &Line::default()) || !same_points(&pts, &again) {
+                    iter_tag = " clone-mismatch".to_string();
+                }
+            }
             let raw = show_pts(kind, &pts);
             match mode {
                 "K" => {
@@ -358,11 +462,28 @@ fn run_inner(t: &[&str]) -> Option<(String, String)> {
             }
             let v: Vec<f64> = a.iter().map(|s| parse_num(s)).collect::<Option<Vec<_>>>()?;
             let c = Circle::new(Point::new(v[0], v[1]), v[2]);
-            let kind = match c.position(&Point::new(v[3], v[4])) {
+            let pp = c.position(&Point::new(v[3], v[4]));
+            let kind = match pp {
                 PointPosition::Inside => "Inside",
                 PointPosition::Border => "Border",
                 PointPosition::Outside => "Outside",
             };
+            // PointPosition: Copy / Clone / clone_from, Debug, PartialEq::{eq, ne}
+            let all = [PointPosition::Inside, PointPosition::Border, PointPosition::Outside];
+            let idx = |x: &PointPosition| match x {
+                PointPosition::Inside => 0,
+                PointPosition::Border => 1,
+                PointPosition::Outside => 2,
+            };
+            #[allow(clippy::clone_on_copy)]
+            let cl = pp.clone();
+            let mut cf = all[(idx(&pp) + 1) % 3];
+            cf.clone_from(&pp);
+            let traits_ok = idx(&cl) == idx(&pp)
+                && idx(&cf) == idx(&pp)
+                && format!("{:?}", pp) == kind
+                && all.iter().all(|o| (pp == *o) == (idx(&pp) == idx(o)) && (pp != *o) == (idx(&pp) != idx(o)));
+            let kind_tag = if traits_ok { "" } else { " glue-mismatch:PointPosition" };
             let ints: Option<Vec<i128>> = a.iter().map(|s| as_int(s)).collect();
             let exact = ints.and_then(|z| {
                 if z[2] <= 0 {
@@ -375,7 +496,7 @@ fn run_inner(t: &[&str]) -> Option<(String, String)> {
                     std::cmp::Ordering::Greater => "Outside",
                 })
             });
-            (kind.to_string(), cross_check(kind, exact).to_string())
+            (kind.to_string(), format!("{}{}", cross_check(kind, exact), kind_tag))
         }
         "con" => {
             let (ls, li, n1) = parse_line(a, 0)?;
@@ -422,7 +543,133 @@ fn run_inner(t: &[&str]) -> Option<(String, String)> {
             };
             let ev = |p: (f64, f64)| (l.a * p.0 + l.b * p.1 + l.c).abs() / l.a.hypot(l.b);
             let on = ev(p0) <= TOL && ev(p1) <= TOL;
-            (raw.to_string(), format!("{} {}", if unit { "unit" } else { "nonunit" }, if on { "on" } else { "off" }).to_string())
+            let glue = if copies_ok(&Circle::default(), &l) && debug_shows(&format!("{:?}", l), "Line", &[l.a, l.b, l.c]) && same_line(&ls.build(), &l) {
+                ""
+            } else {
+                " glue-mismatch:Line"
+            };
+            (raw.to_string(), format!("{} {}{}", if unit { "unit" } else { "nonunit" }, if on { "on" } else { "off" }, glue))
+        }
+        "pt" => {
+            if a.len() != 5 {
+                return None;
+            }
+            let v: Vec<f64> = a.iter().map(|s| parse_num(s)).collect::<Option<Vec<_>>>()?;
+            let (p, q, k) = (Point::new(v[0], v[1]), Point::new(v[2], v[3]), v[4]);
+            // the operators in all four operand forms (value / reference on either side)
+            let adds = [p + q, p + &q, &p + &q, &p + q];
+            let subs = [p - q, p - &q, &p - &q, &p - q];
+            let (mu, dv) = (p * k, p / k);
+            let (sl, ln, dpv, cpv) = (p.slen(), p.len(), p.dp(&q), p.cp(&q));
+            let all = [adds[0].x, adds[0].y, subs[0].x, subs[0].y, mu.x, mu.y, dv.x, dv.y, sl, ln, dpv, cpv];
+            let raw = if full_bits() {
+                let mut r = "pt".to_string();
+                for x in all {
+                    r.push(' ');
+                    r.push_str(&show_num(x));
+                }
+                r
+            } else {
+                "pt".to_string()
+            };
+            // view: every value within 4e-15 (relative to the magnitudes of its terms) of the exact value
+            let dy = |x: f64| exact::Dy::from_f64(x);
+            let mut view = match (dy(v[0]), dy(v[1]), dy(v[2]), dy(v[3]), dy(k), all.iter().map(|x| dy(*x)).collect::<Option<Vec<_>>>()) {
+                (Some(ax), Some(ay), Some(bx), Some(by), Some(kk), Some(o)) => {
+                    let mut bad: Vec<&str> = vec![];
+                    let mut chk = |name: &'static str, val: &exact::Dy, e: exact::Dy, bound: exact::Dy| {
+                        if !exact::within(val, &e, &bound) {
+                            bad.push(name);
+                        }
+                    };
+                    chk("add.x", &o[0], ax.add(&bx), ax.abs().add(&bx.abs()));
+                    chk("add.y", &o[1], ay.add(&by), ay.abs().add(&by.abs()));
+                    chk("sub.x", &o[2], ax.sub(&bx), ax.abs().add(&bx.abs()));
+                    chk("sub.y", &o[3], ay.sub(&by), ay.abs().add(&by.abs()));
+                    chk("mul.x", &o[4], ax.mul(&kk), ax.mul(&kk).abs());
+                    chk("mul.y", &o[5], ay.mul(&kk), ay.mul(&kk).abs());
+                    chk("div.x", &o[6].mul(&kk), ax.clone(), ax.abs());
+                    chk("div.y", &o[7].mul(&kk), ay.clone(), ay.abs());
+                    let s2 = ax.sq().add(&ay.sq());
+                    chk("slen", &o[8], s2.clone(), s2.clone());
+                    chk("len", &o[9].sq(), s2.clone(), s2.clone());
+                    chk("dp", &o[10], ax.mul(&bx).add(&ay.mul(&by)), ax.mul(&bx).abs().add(&ay.mul(&by).abs()));
+                    chk("cp", &o[11], ax.mul(&by).sub(&ay.mul(&bx)), ax.mul(&by).abs().add(&ay.mul(&bx).abs()));
+                    if !exact::Dy::zero().le(&o[9]) {
+                        bad.push("len<0");
+                    }
+                    if bad.is_empty() {
+                        "ok".to_string()
+                    } else {
+                        format!("off:{}", bad.join(","))
+                    }
+                }
+                _ => "nan".to_string(),
+            };
+            // glue around the arithmetic (std-trait entry points of Point), against their std meaning
+            let bits = |t: &Point| (t.x.to_bits(), t.y.to_bits());
+            let mut glue: Vec<&str> = vec![];
+            if adds.iter().any(|t| bits(t) != bits(&adds[0])) || subs.iter().any(|t| bits(t) != bits(&subs[0])) {
+                glue.push("operand-forms");
+            }
+            if sl.to_bits() != Point::new(p.x, p.y).slen().to_bits() || p.dp(&q).to_bits() != q.dp(&p).to_bits() {
+                glue.push("dp-sym");
+            }
+            let tup: (f64, f64) = p.into();
+            if (tup.0.to_bits(), tup.1.to_bits()) != bits(&p) {
+                glue.push("from");
+            }
+            let nan_free = !(p.x.is_nan() || p.y.is_nan() || q.x.is_nan() || q.y.is_nan());
+            if nan_free {
+                // Debug shows both coordinates and reads back to the same bits
+                let dbg = format!("{:?}", p);
+                let back: Option<Vec<f64>> =
+                    dbg.strip_prefix('(').and_then(|s| s.strip_suffix(')')).map(|s| s.split(", ").map(|t| t.parse::<f64>().ok()).collect()).unwrap_or(None);
+                match back {
+                    Some(b) if b.len() == 2 && b[0].to_bits() == p.x.to_bits() && b[1].to_bits() == p.y.to_bits() => {}
+                    _ => glue.push("debug"),
+                }
+                // Show: `(x, y)` with `float_precision` decimals
+                let st = ShowSettings::new();
+                let shown = p.show(&st);
+                let back: Option<Vec<f64>> =
+                    shown.strip_prefix('(').and_then(|s| s.strip_suffix(')')).map(|s| s.split(", ").map(|t| t.parse::<f64>().ok()).collect()).unwrap_or(None);
+                let half = 0.5001 * 10f64.powi(-(st.float_precision as i32));
+                match back {
+                    Some(b) if b.len() == 2 && p.x.abs() <= 1e6 && p.y.abs() <= 1e6 => {
+                        if (b[0] - p.x).abs() > half || (b[1] - p.y).abs() > half {
+                            glue.push("show");
+                        }
+                    }
+                    Some(b) if b.len() == 2 => {}
+                    _ => glue.push("show"),
+                }
+                // PartialEq: eq is field-wise f64 equality (so +0.0 == -0.0), ne is its negation
+                let feq = |s: &Point, t: &Point| s.x == t.x && s.y == t.y;
+                let pz = Point::new(if p.x == 0.0 { -p.x } else { p.x }, if p.y == 0.0 { -p.y } else { p.y });
+                for (s, t) in [(p, q), (q, p), (p, p), (q, q), (p, pz), (p, Point::new(p.x, q.y)), (p, Point::new(q.x, p.y))] {
+                    #[allow(clippy::partialeq_ne_impl)]
+                    if (s == t) != feq(&s, &t) || (s != t) == feq(&s, &t) || s.eq(&t) == s.ne(&t) {
+                        glue.push("eq/ne");
+                        break;
+                    }
+                }
+            }
+            // Clone::clone, clone_from into a fresh (default) and into a used destination, Copy, Default
+            let c1 = p.clone();
+            let mut c2 = Point::default();
+            let dflt = bits(&c2) == (0f64.to_bits(), 0f64.to_bits());
+            c2.clone_from(&p);
+            let mut c3 = q;
+            c3.clone_from(&p);
+            let c4 = p;
+            if !dflt || [c1, c2, c3, c4].iter().any(|t| bits(t) != bits(&p)) {
+                glue.push("clone/default");
+            }
+            if !glue.is_empty() {
+                view = format!("{} glue-mismatch:{}", view, glue.join(","));
+            }
+            (raw, view)
         }
         _ => return None,
     };
@@ -501,9 +748,42 @@ impl<'a> Gen<'a> {
         (self.emit)(format!("con {} {} {} {}", self.eps, l.toks(), tok(p.0), tok(p.1)));
         self.st.bump(fam);
     }
+    fn pt(&mut self, fam: &str, p: (f64, f64), q: (f64, f64), k: f64) {
+        (self.emit)(format!("pt {} {} {} {} {} {}", self.eps, tok(p.0), tok(p.1), tok(q.0), tok(q.1), tok(k)));
+        self.st.bump(fam);
+    }
     fn ln(&mut self, fam: &str, l: LS) {
         (self.emit)(format!("ln {} {}", self.eps, l.toks()));
         self.st.bump(fam);
+    }
+    /// a line almost parallel to a coordinate axis: `x = across + slope * y` (vertical) or `y = across + slope * x`, with
+    /// |slope| = 0 (exactly axis-parallel; the `N` form then carries a coefficient 0.0 or -0.0) or log-uniform in
+    /// [1e-11, 1e-2], |across| mostly in [50, 990].  Returns (line, across, slope).
+    fn near_axis_line(&mut self, vertical: bool) -> (LS, f64, f64) {
+        let slope = if self.rng.chance(1, 8) { 0.0 } else { self.logunif(1e-11, 1e-2) * self.sign() };
+        let across = if self.rng.chance(1, 8) { self.unif(-50.0, 50.0) } else { self.unif(50.0, 990.0) * self.sign() };
+        let ls = if self.rng.chance(2, 3) {
+            let t1 = self.unif(-1000.0, 1000.0);
+            let t2 = loop {
+                let t = self.unif(-1000.0, 1000.0);
+                if (t - t1).abs() >= 1.5 {
+                    break t;
+                }
+            };
+            if vertical {
+                LS::B(across + slope * t1, t1, across + slope * t2, t2)
+            } else {
+                LS::B(t1, across + slope * t1, t2, across + slope * t2)
+            }
+        } else {
+            let k = if self.rng.chance(1, 3) { 1.0 } else { self.logunif(0.01, 900.0) } * self.sign();
+            if vertical {
+                LS::N(k, -k * slope, -k * across)
+            } else {
+                LS::N(-k * slope, k, -k * across)
+            }
+        };
+        (ls, across, slope)
     }
     /// random real line through the box, defining points at least 1 apart
     fn rand_line(&mut self, lim: f64) -> LS {
@@ -917,6 +1197,170 @@ fn gen(args: &Args, emit: &mut dyn FnMut(String), st: &mut Stats) {
         }
     }
 
+    // ---- (v-b) nearly degenerate but in-domain configurations (wave 3, class F)
+    let tau = std::f64::consts::TAU;
+    // lines that are almost (or exactly, incl. a coefficient -0.0) parallel to a coordinate axis, far from the origin, met by a
+    // second line at a moderate angle in a point with large coordinates; each in both argument orders.  A pivot / back-
+    // substitution through a tiny coefficient (seeded C10_m8: |b| ~ 1e-9 .. 1e-6, crossing at |x| of some hundreds) is off the
+    // other line by far more than 1e-7 here, Cramer's rule is accurate to ~1e-12.
+    for _ in 0..(1800 * scale) {
+        let vertical = g.rng.chance(1, 2);
+        let steep = g.near_axis_line(vertical);
+        // a point of the steep line with large coordinates, and a second line through (about) it
+        let (along, across) = (g.unif(-900.0, 900.0), steep.1);
+        let p = if vertical { (across + steep.2 * along, along) } else { (along, across + steep.2 * along) };
+        let other = match g.rng.below(8) {
+            0 => g.rand_line(1000.0),
+            1 => g.near_axis_line(!vertical).0,
+            _ => {
+                // direction at an angle of at least ~1e-3 .. pi/2 to the steep line
+                let base = if vertical { tau / 4.0 } else { 0.0 };
+                let ang = base + g.sign() * if g.rng.chance(1, 4) { g.logunif(1e-3, 1.5) } else { g.unif(0.05, 1.5) };
+                let (dx, dy) = (ang.cos(), ang.sin());
+                let t1 = g.unif(-300.0, 300.0);
+                let t2 = t1 + g.sign() * g.unif(1.5, 300.0);
+                let q = |t: f64| ((p.0 + t * dx).clamp(-1000.0, 1000.0), (p.1 + t * dy).clamp(-1000.0, 1000.0));
+                let (q1, q2) = (q(t1), q(t2));
+                if (q1.0 - q2.0).hypot(q1.1 - q2.1) < 1.5 {
+                    g.rand_line(1000.0)
+                } else if g.rng.chance(3, 4) {
+                    LS::B(q1.0, q1.1, q2.0, q2.1)
+                } else {
+                    let k = g.logunif(0.01, 900.0) * g.sign();
+                    LS::N(-k * dy, k * dx, k * (dy * p.0 - dx * p.1))
+                }
+            }
+        };
+        let fam = format!("ll_axis_{}", if vertical { "v" } else { "h" });
+        if g.rng.chance(1, 2) {
+            g.ll(&fam, steep.0, other);
+        } else {
+            g.ll(&fam, other, steep.0);
+        }
+        // the same steep line against a circle: tangent sweep or a random radius
+        if g.rng.chance(1, 2) {
+            let dist = g.logunif(0.2, 900.0);
+            let side = g.sign();
+            // centre at (approximately) distance `dist` from the steep line, next to the point p
+            let c = if vertical { (p.0 + side * dist, p.1) } else { (p.0, p.1 + side * dist) };
+            if c.0.abs() <= 1000.0 && c.1.abs() <= 1000.0 {
+                let d = steep.0.dist_to(c.0, c.1);
+                let r = if g.rng.chance(1, 2) { d + *g.rng.pick(&DELTAS) * g.sign() } else { d * g.unif(0.6, 1.5) };
+                if (0.1..=1000.0).contains(&r) {
+                    g.cl(&format!("cl_axis_{}", if vertical { "v" } else { "h" }), c.0, c.1, r, steep.0);
+                }
+            }
+            let shift = g.unif(-1.0, 1.0) * *g.rng.pick(&DELTAS);
+            g.con("con_axis", steep.0, (p.0 + shift, p.1));
+            g.ln("ln_axis", steep.0);
+        }
+    }
+    // lines whose defining points are (almost) exactly a "round" distance apart / Line::new with an (almost) normalised
+    // normal, and circles whose centre is up to ~1000 from the line.  The stored normal must be a unit vector to ~1e-16: a
+    // relative error e in it moves the foot point by e * distance (seeded C10_m10: normalisation skipped when |a^2+b^2-1| < EPS,
+    // i.e. e up to 5e-10: kind wrong 100 tolerances from tangency, points 2e-7 off the line at distance 400+).
+    for _ in 0..(2500 * scale) {
+        let th = match g.rng.below(6) {
+            0 => (g.rng.below(4) as f64) * tau / 4.0,
+            1 => {
+                let &(dx, dy, _) = g.rng.pick(&PYTH);
+                (dy as f64 * g.sign()).atan2(dx as f64 * g.sign())
+            }
+            _ => g.unif(0.0, tau),
+        };
+        let (dx, dy) = match g.rng.below(8) {
+            // exactly axis-parallel directions (cos/sin of k*pi/2 are not exact)
+            0 => *g.rng.pick(&[(1.0, 0.0), (0.0, 1.0), (-1.0, 0.0), (0.0, -1.0)]),
+            _ => (th.cos(), th.sin()),
+        };
+        let special = g.rng.chance(3, 4);
+        let rel = if special {
+            *g.rng.pick(&[0.0, 1e-15, 1e-13, 1e-12, 1e-11, 1e-10, 2e-10, 3e-10, 4e-10, 4.9e-10, 5.1e-10, 7e-10, 1e-9, 3e-9, 1e-8, 1e-6])
+        } else {
+            0.0
+        };
+        let u = if g.rng.chance(1, 3) { (g.int(-600, 600), g.int(-600, 600)) } else { (g.unif(-600.0, 600.0), g.unif(-600.0, 600.0)) };
+        let use_new = g.rng.chance(1, 3);
+        let l = if use_new {
+            // Line::new with |(a, b)| = base * (1 +- rel): both signs are inside the domain
+            let base = if special { *g.rng.pick(&[1.0, 1.0, 1.0, 1.0, 0.5, 2.0, 0.125, 10.0, 100.0]) } else { g.logunif(0.01, 900.0) };
+            let k = base * (1.0 + rel * g.sign()) * g.sign();
+            // normal (-dy, dx), through u
+            LS::N(-k * dy, k * dx, k * (dy * u.0 - dx * u.1))
+        } else {
+            // Line::between with |u - v| = base * (1 + rel) (the domain wants >= 1)
+            let base = if special { *g.rng.pick(&[1.0, 1.0, 1.0, 1.0, 2.0, 4.0, 10.0]) } else { g.unif(1.5, 300.0) };
+            let s = base * (1.0 + rel);
+            let v = (u.0 + s * dx, u.1 + s * dy);
+            if g.rng.chance(1, 2) {
+                LS::B(u.0, u.1, v.0, v.1)
+            } else {
+                LS::B(v.0, v.1, u.0, u.1)
+            }
+        };
+        // far centre: foot point u + t*dir, distance D on either side
+        let mut placed = None;
+        for _ in 0..6 {
+            let t = g.unif(-400.0, 400.0);
+            let dd = g.logunif(20.0, 1300.0);
+            let sd = g.sign();
+            let c = (u.0 + t * dx - sd * dd * dy, u.1 + t * dy + sd * dd * dx);
+            if c.0.abs() <= 1000.0 && c.1.abs() <= 1000.0 {
+                placed = Some((c, t));
+                break;
+            }
+        }
+        let fam_l = if !special { "far_generic" } else if use_new { "far_unit_normal" } else { "far_round_spacing" };
+        if let Some((c, t)) = placed {
+            let d = l.dist_to(c.0, c.1);
+            let r = match g.rng.below(4) {
+                0 | 1 => d + *g.rng.pick(&DELTAS) * g.sign(),
+                2 => d * g.unif(1.0001, 1.3),
+                _ => d * g.unif(0.5, 1.05),
+            };
+            if (0.1..=1000.0).contains(&r) {
+                g.cl(&format!("cl_{}", fam_l), c.0, c.1, r, l);
+            }
+            // a far point of the line (and points a few tolerances off it)
+            let off = *g.rng.pick(&DELTAS) * g.sign();
+            let far = (u.0 + 2.0 * t * dx - off * dy, u.1 + 2.0 * t * dy + off * dx);
+            if far.0.abs() <= 1000.0 && far.1.abs() <= 1000.0 && g.rng.chance(1, 2) {
+                g.con(&format!("con_{}", fam_l), l, far);
+            }
+        }
+        if g.rng.chance(1, 3) {
+            g.ln(&format!("ln_{}", fam_l), l);
+            let w = g.rand_line(1000.0);
+            if g.rng.chance(1, 2) {
+                g.ll(&format!("ll_{}", fam_l), l, w);
+            } else {
+                g.ll(&format!("ll_{}", fam_l), w, l);
+            }
+        }
+    }
+
+    // ---- (v-c) the point algebra itself (operators in all operand forms, slen/len/dp/cp, From, Debug, Show, Clone, Default, PartialEq)
+    for _ in 0..(1500 * scale) {
+        let coord = |g: &mut Gen| match g.rng.below(8) {
+            0 => g.int(-30, 30),
+            1 => *g.rng.pick(&[0.0, -0.0, 1.0, -1.0, 0.5, 1000.0, -1000.0, 1e-6]),
+            2 => g.logunif(1e-6, 1e3) * g.sign(),
+            _ => g.unif(-1000.0, 1000.0),
+        };
+        let p = (coord(&mut g), coord(&mut g));
+        let q = match g.rng.below(6) {
+            0 => p,
+            1 => (p.1, -p.0),
+            2 => (p.0 * (1.0 + 1e-15), p.1),
+            _ => (coord(&mut g), coord(&mut g)),
+        };
+        let k = match g.rng.below(4) {
+            0 => *g.rng.pick(&[1.0, -1.0, 2.0, 0.5, 3.0, 10.0, 0.1, 1000.0, 0.001]),
+            _ => g.logunif(1e-3, 1e3) * g.sign(),
+        };
+        g.pt("pt", p, q, k);
+    }
+
     // ---- (vi) small out-of-domain stream (the property does not constrain these: S = any)
     for _ in 0..(300 * scale) {
         let l = LS::B(g.unif(-1.0, 1.0), g.unif(-1.0, 1.0), g.unif(-1.0, 1.0), g.unif(-1.0, 1.0));
@@ -927,6 +1371,10 @@ fn gen(args: &Args, emit: &mut dyn FnMut(String), st: &mut Stats) {
         g.cc("ood_near_concentric", a, c);
         let oc = g.int(-3, 3);
         g.ln("ood_degenerate_line", LS::N(0.0, 0.0, oc));
+        let big = g.logunif(1e3, 1e150) * g.sign();
+        let kz = *g.rng.pick(&[0.0, 1e-200, 1e200]);
+        let (s1, s2) = (g.unif(-1.0, 1.0), g.unif(-1.0, 1.0));
+        g.pt("ood_pt", (big, s1), (s2, big), kz);
     }
 }
 
